@@ -868,6 +868,8 @@ def check_from_string(ctx, rule: str) -> None:
         return isinstance(args[0], types) if types else False
 
     def _parse(it_, ev, c, a, k):
+        if not a or not isinstance(a[0], str):
+            raise Unknown("the text handed to the parser is not a known string")
         try:
             return pyast.parse(*a, **k)
         except SyntaxError:
